@@ -182,6 +182,30 @@ def soup(alphabet, n):
             yield seq
 
 
+# (f) assignment flags: every sequence of <= 2 flags x assignment form x target (declared in an enclosing block / in the same block / nowhere) x host
+AF_FLAGS = ["modify", "const", "export"]
+AF_FORMS = ["{F} a = 2", "{F} a: int = 2", "{F} [a, bq] = [1, 2]", "{F} a += 1", "{F} a ?= 3", "{F} zz = 2", "{F} zz: int = 2", "{F} a = a", "{F} a = fn() -> int {{\n\treturn a\n}}",
+            "{F} a[0] = 2", "{F} a.v = 2"]
+AF_HOSTS = {"module": "{S}", "if": "if true {{\n\t{S}\n}}", "else": "if false {{\n}} else {{\n\t{S}\n}}", "while": "wq = 0\nwhile wq < 1 {{\n\twq = wq + 1\n\t{S}\n}}",
+            "from": "from 0 to 1 {{\n\t{S}\n}}", "if-if": "if true {{\n\tif true {{\n\t\t{S}\n\t}}\n}}", "fn": "hf = fn() {{\n\t{S}\n}}",
+            "fn-local-if": "hf = fn() {{\n\ta = 5\n\tif true {{\n\t\t{S}\n\t}}\n}}", "fn-local-from": "hf = fn() {{\n\ta = 5\n\tfrom 0 to 2, iq {{\n\t\t{S}\n\t}}\n}}",
+            "fn-param-if": "hf = fn(a: int) {{\n\tif true {{\n\t\t{S}\n\t}}\n}}", "fn-in-fn": "hf = fn() {{\n\thg = fn() {{\n\t\t{S}\n\t}}\n}}",
+            "fn-if-in-fn": "hf = fn() {{\n\thg = fn() {{\n\t\tif true {{\n\t\t\t{S}\n\t\t}}\n\t}}\n}}",
+            "method-if": "class Kq {{\n\tconstructor(self) {{}}\n\tfn mq(self) {{\n\t\tif true {{\n\t\t\t{S}\n\t\t}}\n\t}}\n}}"}
+AF_PRE = {"none": "", "int": "a = 1\n", "const": "const a = 1\n", "opt": "a: int? = nil\n", "list": "a: [int...] = [1]\n",
+          "obj": "class Aq {\n\tv: int\n\tconstructor(self) {\n\t\tself.v = 1\n\t}\n}\na = Aq()\n"}
+
+
+def af_cases():
+    import itertools
+    flags = [""] + AF_FLAGS + [" ".join(p) for p in itertools.product(AF_FLAGS, repeat=2)]
+    for fi, fl in enumerate(flags):
+        for fo in range(len(AF_FORMS)):
+            for h in AF_HOSTS:
+                for p in AF_PRE:
+                    yield ("a", fl, fo, h, p)
+
+
 class C16(Check):
     id = "C16"
     level = "exploration"
@@ -192,6 +216,7 @@ class C16(Check):
             "token of a fixed alphabet) at every token position of corpus files; (c) nesting towers of 13 nestable constructs up to 4 kB; "
             "(d) lexical boundaries: ~150 spellings at the limits of every literal rule (decimal / hexadecimal / B / binary / float / string / identifier; "
             "widths 8, 32, 64, 128 bits and beyond, malformed separators, escapes, stray characters) x 39 positions that treat a literal specially; "
+            "(f) assignment flags: every sequence of <= 2 of {modify, const, export} x 11 assignment forms x 13 hosts (blocks, nested blocks, functions whose local / parameter is the target, nested functions, methods) x 6 declarations of the target; "
             "(e) token soup: EVERY sequence of <= n tokens over a 59-token alphabet (each lexical class, bracket, keyword) and of <= n+1 tokens over its 16 structural members, "
             "at module level, inside a function body, inside a class body and inside an unclosed nested block.  "
             "Non-trivial = the input is not accepted as a valid program (diagnostics path) or exercises a host context.")
@@ -244,7 +269,8 @@ class C16(Check):
 
         lits = lexical_literals()
         imps = [("i", pi, fi, h) for pi in range(len(self.IMPORT_PATHS)) for fi in range(len(self.IMPORT_FORMS)) for h in self.IMPORT_HOSTS]
-        ls = [("L0-nesting-towers+lexical-boundaries", [[c] for c in towers()] + [("x", c, i) for i in range(len(lits)) for c in range(len(LEX_CTX))]),
+        afl = list(af_cases())
+        ls = [("Lf-assignment-flags-x-forms-x-hosts-x-declared-where", afl if tier == "thorough" else [c for c in afl if c[4] in ("none", "int", "opt")]), ("L0-nesting-towers+lexical-boundaries", [[c] for c in towers()] + [("x", c, i) for i in range(len(lits)) for c in range(len(LEX_CTX))]),
               ("Li-import-paths-x-forms-x-hosts", imps),
               ("L1-grammar-k<=2-all-hosts", gram(2, HOSTS, pre, list(ROOTS))),
               ]
@@ -284,6 +310,8 @@ class C16(Check):
             return {"tower": case[1], "depth": case[2]}
         if case[0] == "x":
             return {"context": LEX_CTX[case[1]], "literal": lexical_literals()[case[2]][:80]}
+        if case[0] == "a":
+            return {"assignment": AF_FORMS[case[2]].replace("{F}", case[1]).replace("{{", "{").replace("}}", "}").strip(), "host": case[3], "prelude": case[4]}
         if case[0] == "s":
             al = SOUP_FULL if case[1] == "F" else SOUP_STRUCT
             return {"soup": [al[i] for i in case[2]], "host": case[3]}
@@ -298,6 +326,9 @@ class C16(Check):
             return PRELUDES[p] + host_wrap(host, stmt)
         if case[0] == "t":
             return tower(case[1], case[2])
+        if case[0] == "a":
+            stmt = AF_FORMS[case[2]].replace("{F}", case[1]).strip()
+            return (AF_PRE[case[4]] + AF_HOSTS[case[3]].replace("{S}", stmt) + "\n").replace("{{", "{").replace("}}", "}")
         if case[0] == "s":
             al = SOUP_FULL if case[1] == "F" else SOUP_STRUCT
             return SOUP_HOSTS[case[3]].replace("{S}", " ".join(al[i] for i in case[2]).replace("\\n", "\n"))
